@@ -72,6 +72,25 @@ def _status(exc):
     return "value-error" if isinstance(exc, ValueError) else "other-error:" + type(exc).__name__
 
 
+def _against_dense(np, res, op, cls, mode, x, y, st, desc):
+    """The property itself on the real code (no model involved): the product of a discrete blocked operator with a vector /
+    matrix equals to_dense() @ x — exactly, on this dyadic data.  lu() solves with to_dense(), gmres()/cg() and
+    operator * function use the product: where the two differ the solvers do not solve the same system."""
+    if st != "ok":
+        return
+    try:
+        D = np.asarray(op.to_dense())
+    except Exception:  # noqa: BLE001
+        return
+    want = D @ x
+    got = np.asarray(y).reshape(want.shape) if np.asarray(y).size == want.size else None
+    if got is None or (want.size and np.max(np.abs(got - want)) != 0):
+        res.counterexample(f"blocked-discrete-product-differs-from-to-dense:{cls}:{'2d' if np.ndim(x) == 2 else '1d'}",
+                           f"{cls}: {mode}(x) differs from to_dense() @ x on exactly representable data "
+                           f"(max difference {float(np.max(np.abs(got - want))) if got is not None else 'shape'})",
+                           mode=mode, x=[str(v) for v in np.asarray(x).ravel()], **desc)
+
+
 def add_requests(ctx, res, add):
     import numpy as np
     import scipy.sparse as sps
@@ -156,6 +175,7 @@ def add_requests(ctx, res, add):
                 res.disagree("blocked _matvec: values", impl=[str(v) for v in np.asarray(y).ravel()], model=ans[:200],
                              mode=mode, x=[str(v) for v in x], **desc)
         add("blk mv " + head + " " + _vec(x), chk_mv)
+        _against_dense(np, res, B, "BlockedDiscreteOperator", mode, x, y, st, desc)
         res.case(("blk-mv", m, n, tuple(rows), tuple(cols), xc), nontrivial=(m > 1 or n > 1) and len(set(rows + cols)) > 1,
                  sample=dict(kind="BlockedDiscreteOperator matvec", **desc))
 
@@ -178,6 +198,7 @@ def add_requests(ctx, res, add):
                 res.disagree("blocked _matmat: values", impl=[str(v) for v in np.asarray(Y).ravel()], model=ans[:200],
                              mode=mode2, X=[[str(v) for v in r_] for r_ in X], **desc)
         add("blk mm " + head + f" {k} " + " ".join(_vec(X[:, q]) for q in range(k)), chk_mm)
+        _against_dense(np, res, B, "BlockedDiscreteOperator", mode2, X, Y, st2, desc)
         res.case(("blk-mm", m, n, tuple(rows), tuple(cols), k), nontrivial=(m > 1 or n > 1) and len(set(rows + cols)) > 1)
 
         try:
@@ -293,6 +314,8 @@ def add_requests(ctx, res, add):
                              layout=str(layout), X=[[str(v) for v in r_] for r_ in X], mode=mode)
             elif D is None or D.shape != (sum(l[0] for l in layout), X.shape[0]) or np.max(np.abs(D @ X - np.asarray(Y).reshape(D.shape[0], -1))) != 0:
                 res.disagree("generalized to_dense() @ X differs from _matmat(X)", layout=str(layout))
+        _against_dense(np, res, G, "GeneralizedDiscreteBlockedOperator", mode, X if mode == "matmat" else X[:, 0], Y, st,
+                       dict(layout=str(layout)))
         add(f"blk gen {m} " + " ".join(f"{len(brow)} " + " ".join(_mat(M) for M in brow) for brow in blocks) +
             f" {k} " + " ".join(_vec(X[:, q]) for q in range(k)), chk_gen)
         res.case(("blk-gen", str(layout), k), nontrivial=len({tuple(l[1]) for l in layout}) > 1 or
